@@ -81,8 +81,9 @@ func (c *c05) Generate(env *kernel.Env, r *kernel.Rand, index int) any {
 				break
 			}
 		}
+		kinds = append(kinds, "unique") // single-row lookups are discovered at run time
 		if len(t.Uniques) > 0 {
-			kinds = append(kinds, "unique", "unique")
+			kinds = append(kinds, "unique")
 		}
 		if len(t.SelectKeys) > 0 {
 			kinds = append(kinds, "key", "delkey")
